@@ -10,9 +10,9 @@ out = {
     "setup_cmd": "make -C /verif setup",
     "hooks": {
         "guard": "verif",
-        "enable": "harnesses are injected with go/packages Overlay and `go test -tags verif -overlay`; /repo carries no hook code",
+        "enable": "go build/test -tags verif: internal/verifhook.Point calls a registered callback (empty function without the tag); harnesses are injected with go/packages Overlay and `go test -tags verif -overlay`",
         "baseline_off_cmd": "cd /repo && GOFLAGS=-mod=mod GOPROXY=off go test -vet=off -count=1 -timeout 25m ./...",
-        "source_commits": [],
+        "source_commits": ["11145cf"],
         "add_only": True,
     },
     "engines": [{
